@@ -368,7 +368,7 @@ func runFrontProgram(f front, ts *testServer, path []int, closeSession bool) (st
 		if !cs.settle(kind, fn, modeAll, path, k, func(q int, m *model) string { return cmpFrontViews(out, m.c, false) }) {
 			return true, false
 		}
-		note(op, wasOpen, engErr, cs.m[q0])
+		note(op, wasOpen, engErr)
 		if oc[q0].leaf {
 			return true, false
 		}
